@@ -591,7 +591,9 @@ class TdmsSegmentObject(BaseSegmentObject):
 
         if self.data_type.nptype is not None:
             dtype = self.data_type.nptype.newbyteorder(endianness)
-            return fromfile(file, dtype=dtype, count=number_values)
+            data = fromfile(file, dtype=dtype, count=number_values)
+            # Convert to native byte order, this doesn't copy if data is already in native order
+            return data.astype(self.data_type.nptype, copy=False)
         elif self.data_type.size is not None:
             byte_data = fromfile(file, dtype=np.dtype('uint8'), count=number_values * self.data_type.size)
             return self.data_type.from_bytes(byte_data, endianness)
